@@ -308,6 +308,9 @@ func (p *policy) splitMemsByType(ids idset.IDSet) (dram, pmem, hbm idset.IDSet) 
 
 	for _, id := range ids.Members() {
 		node := p.sys.Node(id)
+		if !system.NodeHasMemory(node) {
+			continue
+		}
 		switch node.GetMemoryType() {
 		case system.MemoryTypeDRAM:
 			dram.Add(id)
